@@ -78,7 +78,7 @@ func c01Profiles(tier string) []Profile {
 	ps = append(ps, mem.Profile(fmt.Sprintf("every history of length <= %d over Set/Delete (3 keys x 3 priorities) on a memory-only store", dMem)))
 
 	// two collections: flush / reopen act on several collections
-	two := &SeqProfile{Name: "two", Keys: keys, Depth: dOther,
+	two := &SeqProfile{Name: "two", Keys: keys, Depth: dOther, MapOrders: true,
 		Init: func(w *harness.World) { w.SetCollection("x", "nil"); w.SetCollection("y", "nil") },
 		Letters: func(w *harness.World) []Letter {
 			var ls []Letter
